@@ -56,6 +56,10 @@ ENTRIES = [
     ('stream<<', 'g', 'std::ostringstream o; o << X; d << (int)o.str().size();'),
     ('copy-construct', 'g', 'G Z(X); d << Z;'),
     ('assign-to-owning', 'g', 'G Z; Z = X; d << Z;'),
+    ('copy-initialise(implicit-conversion)', 'g', 'G Z = X; d << Z; const G& r = X; d << r;'),
+    ('assign-from-temporary', 'g', 'typedef typename std::decay<decltype(X)>::type K; G Z; Z = K(X); d << Z; K mv(X); G W; W = std::move(mv); d << W; G V((K(X))); d << V;'),
+    ('view=temporary', 'g', 'typedef typename std::decay<decltype(X)>::type K; typename G::DataType buf = Yo.coeffs(); Eigen::Map<G> V(buf.data()); V = K(X); d << V; d << buf;'),
+    ('tangent+group(group-in-any-storage)', 'g', 'd << (to + X) << to.plus(X) << to.lplus(X) << to.rplus(X) << to.plus(X, Ja, Jb) << Ja << Jb << to.rplus(X, Ja, Jb) << Ja << Jb;'),
     ('Identity', 's', 'd << G::Identity();'),
     ('Random', 's', 'srand(7); d << (int)G::Random().size();'),
     # ---- mutating group members ---------------------------------------------------------------------
@@ -105,6 +109,9 @@ ENTRIES = [
     ('tangent-cast', 't', 'd << t.template cast<float>() << t.template cast<double>();'),
     ('tangent-stream<<', 't', 'std::ostringstream o; o << t; d << (int)o.str().size();'),
     ('tangent-copy', 't', 'T z(t); T y; y = t; d << z << y;'),
+    ('tangent-copy-initialise(implicit-conversion)', 't', 'T z = t; d << z; const T& r = t; d << r;'),
+    ('tangent-assign-from-temporary', 't', 'typedef typename std::decay<decltype(t)>::type K; T z; z = K(t); d << z; K mv(t); T w; w = std::move(mv); d << w; T v((K(t))); d << v;'),
+    ('tangent-view=temporary', 't', 'typedef typename std::decay<decltype(t)>::type K; typename T::DataType buf = so.coeffs(); Eigen::Map<T> v(buf.data()); v = K(t); d << v; d << buf;'),
     ('Zero', 's', 'd << T::Zero();'),
     ('Tangent::Random', 's', 'srand(7); d << (int)T::Random().size();'),
     ('Generator', 's', 'd << T::Generator(0);'),
